@@ -128,3 +128,71 @@ func partLargeWorkspace(shard, shards int) {
 		os.RemoveAll(root)
 	}
 }
+
+// Part (c''''): many Starlark packages loaded by several workers at once: every package gets exactly the targets
+// its own BUILD.star declares (nothing that one evaluation writes may be visible to another one).
+func partStarlarkPackages(shard, shards int) {
+	if shard != 2%shards {
+		return
+	}
+	reps := 6
+	if vrep.Thorough() {
+		reps = 30
+	}
+	const pkgs, perPkg = 24, 30
+	root := filepath.Join(tmp, "ws-star")
+	os.MkdirAll(root, 0o755)
+	os.WriteFile(filepath.Join(root, "grog.toml"), nil, 0o644)
+	os.WriteFile(filepath.Join(root, "defs.star"), []byte("def mk(prefix, n):\n    for i in range(n):\n        target(name = prefix + \"_\" + str(i), command = \"echo \" + prefix)\n"), 0o644)
+	for p := 0; p < pkgs; p++ {
+		d := filepath.Join(root, fmt.Sprintf("s%02d", p))
+		os.MkdirAll(d, 0o755)
+		os.WriteFile(filepath.Join(d, "BUILD.star"), []byte(fmt.Sprintf("load(\"//defs.star\", \"mk\")\nmk(\"s%02d\", %d)\nalias(name = \"al\", actual = \":s%02d_0\")\n", p, perPkg, p)), 0o644)
+	}
+	config.Global.WorkspaceRoot = root
+	defer func() { config.Global.NumWorkers = 0 }()
+	caseID := map[string]any{"part": "c''''", "starlark_packages": pkgs, "targets_per_package": perPkg}
+	for _, w := range []int{1, 2, 8} {
+		for rep := 0; rep < reps; rep++ {
+			config.Global.NumWorkers = w
+			r, finished := loadPackagesGuarded(root)
+			evals += pkgs
+			who := fmt.Sprintf("workers=%d rep=%d", w, rep)
+			if !finished {
+				vrep.Violation("hang:loadpackages:starlark-packages", fmt.Sprintf("LoadPackages did not return within %s (%s)", hangCeiling, who), caseID)
+				return
+			}
+			if r.panic != "" || r.err != nil {
+				vrep.Violation("loadpackages:valid-workspace-rejected:starlark-packages", fmt.Sprintf("%d valid Starlark packages are rejected: %v %s (%s)", pkgs, r.err, r.panic, who), caseID)
+				continue
+			}
+			bad := ""
+			seen := 0
+			for _, p := range r.pkgs {
+				if len(p.Targets) == 0 && len(p.Aliases) == 0 {
+					continue
+				}
+				seen++
+				prefix := filepath.Base(p.Path)
+				if len(p.Targets) != perPkg || len(p.Aliases) != 1 {
+					bad = fmt.Sprintf("package %s has %d targets and %d aliases, its BUILD.star declares %d and 1", p.Path, len(p.Targets), len(p.Aliases), perPkg)
+				}
+				for l := range p.Targets {
+					if l.Package != p.Path || len(l.Name) < len(prefix) || l.Name[:len(prefix)] != prefix {
+						bad = fmt.Sprintf("package %s contains %s", p.Path, l)
+					}
+				}
+			}
+			if seen != pkgs && bad == "" {
+				bad = fmt.Sprintf("%d packages with targets, expected %d", seen, pkgs)
+			}
+			if bad != "" {
+				vrep.Violation("loadpackages:starlark-evaluations-interfere", fmt.Sprintf("%s (%s)", bad, who), caseID)
+				return
+			}
+			noteOutcome("loadpackages|starlark-packages|ok")
+		}
+	}
+	vrep.Nontrivial.Add("c''''")
+	os.RemoveAll(root)
+}
